@@ -70,14 +70,14 @@ theorem threadsStop_of_queuesEmpty (h : Host) (hq : QueuesEmpty h) : ThreadsStop
 theorem threadsStop_of_repaired (h : Host) (hd : h.done = true) (hfix : ∀ c, Gen.Shutdown.thread_run_stops false true c = true) :
     ThreadsStop h := fun _ b _ _ _ => by rw [hd]; exact hfix _
 
-/-- quiet, one block, over `ThreadsStop` and `NoLateStart` (start-up had completed when the instance was shut: the complement of
-finding R3-C17-a) -/
-theorem C17_quiet_core (h : Host) (hw : WF h) (hc : Closed h) (hts : ThreadsStop h) (hns : NoLateStart h) (b : Block) (hnb : b.isBrowse = false)
-    (h' : Host) (o : List Out) (hs : step h b = some (h', o)) : (∀ x ∈ o, x.isEmission = false) ∧ Closed h' ∧ NoLateStart h' := by
-  have hns' := NoLateStart_step h b h' o hns hs
+/-- quiet, one block, over `ThreadsStop`, "no socket was opened behind the shutdown" and: either start-up had completed when the
+instance was shut (the complement of R3-C17-a's class) or `_async_setup` looks at `done` (its repair) -/
+theorem C17_quiet_core' (h : Host) (hw : WF h) (hc : Closed h) (hts : ThreadsStop h) (hls : h.lateSockets = false)
+    (hsu : h.startPending = false ∨ Gen.Shutdown.startup_closes_when_done true = true) (b : Block) (hnb : b.isBrowse = false)
+    (h' : Host) (o : List Out) (hs : step h b = some (h', o)) : (∀ x ∈ o, x.isEmission = false) ∧ Closed h' := by
   obtain ⟨hd, ht, hcl, hret⟩ := hc
   have sm := step_summary h b h' o hw hs
-  refine ⟨?_, ⟨sm.done_mono hd, sm.tc_mono ht, sm.cu_mono hcl, sm.ret_mono hret⟩, hns'⟩
+  refine ⟨?_, ⟨sm.done_mono hd, sm.tc_mono ht, sm.cu_mono hcl, sm.ret_mono hret⟩⟩
   have hg : ∀ l, gated h l = [] := gated_of_done h hd
   have hbody : ∀ s, (closeBody h s).2.1 = [] := by
     intro s
@@ -87,10 +87,19 @@ theorem C17_quiet_core (h : Host) (hw : WF h) (hc : Closed h) (hts : ThreadsStop
     · exact hg _
   have hz : (zcClose h).2 = [] := by rw [zcClose_of_done h hd]
   cases b with
-  | recv s q d u da aa => simp [step, ht, hns.2] at hs
+  | recv s q d u da aa => simp [step, ht, hls] at hs
   | apiBrowse tr rp th zt => simp [Block.isBrowse] at hnb
   | cleanupFire e => simp [step, hcl] at hs
-  | startUp => simp [step, hd, hns.1] at hs
+  | startUp =>
+    cases hsp : h.startPending with
+    | false => simp [step, hd, hsp] at hs
+    | true =>
+      rcases hsu with hsu | hfix
+      · rw [hsp] at hsu; cases hsu
+      · -- the endpoints have just been created on an instance closed meanwhile: they are shut down again, nothing is emitted
+        simp only [step, hsp, hd, hfix, ↓reduceIte, Option.some.injEq, Prod.mk.injEq] at hs
+        obtain ⟨_, rfl⟩ := hs
+        simp
   | browserThread i =>
     simp only [step] at hs
     split at hs
@@ -127,6 +136,13 @@ theorem C17_quiet_core (h : Host) (hw : WF h) (hc : Closed h) (hts : ThreadsStop
          first
          | (simp [hg, hbody, hz, Out.isEmission, timerOnFinished_eq, notifyOnFinished_eq]; done)
          | (split <;> simp [hg, hbody, hz, Out.isEmission, timerOnFinished_eq, notifyOnFinished_eq]; done))
+
+/-- quiet, one block, over `ThreadsStop` and `NoLateStart` (start-up had completed when the instance was shut: the complement of
+finding R3-C17-a) -/
+theorem C17_quiet_core (h : Host) (hw : WF h) (hc : Closed h) (hts : ThreadsStop h) (hns : NoLateStart h) (b : Block) (hnb : b.isBrowse = false)
+    (h' : Host) (o : List Out) (hs : step h b = some (h', o)) : (∀ x ∈ o, x.isEmission = false) ∧ Closed h' ∧ NoLateStart h' := by
+  obtain ⟨e, c⟩ := C17_quiet_core' h hw hc hts hns.2 (Or.inl hns.1) b hnb h' o hs
+  exact ⟨e, c, NoLateStart_step h b h' o hns hs⟩
 
 /-- **C17, quiet (one block), partial (D31, R3-C17-a).**  In a closed host whose start-up had completed (`NoLateStart`) and in which
 no thread-based browser has state changes waiting in its queue (`QueuesEmpty`), every block that can occur at all — timer, task
@@ -217,9 +233,95 @@ theorem C17_close_joins_tracked_thread_browsers (h : Host) (hd : h.done = false)
     ∀ b ∈ (zcClose h).1.browsers, b.threaded = true → b.queued ≠ 0 → b ∈ h.browsers ∧ b.zcTracked = false :=
   zcClose_joins h hd
 
+/-! ### The repaired tree (R3-C17-a fixed, 609d2f3): quiet without `NoLateStart`
+
+`AsyncEngine._async_setup` now looks at `zc.done` once the endpoints exist and shuts them down again (translated leaf
+`startup_closes_when_done`, `GenFacts.Shutdown.startup_closes_when_done_on`).  In the model a start-up that completes on a closed
+instance no longer opens late sockets, so `lateSockets = false` is an invariant of every run (`C17_no_late_sockets_invariant`) and the
+quiet theorems hold for **every** closed host of every run, whether start-up had completed when the close came or not. -/
+
+/-- **No socket is ever opened behind a shutdown** — an invariant of the machine on the current tree: it holds initially (`lateSockets`
+is `false` in every host that has not run a block) and is preserved by every block. -/
+theorem C17_no_late_sockets_invariant :
+    (∀ (h h' : Host) (b : Block) (o : List Out), h.lateSockets = false → step h b = some (h', o) → h'.lateSockets = false) ∧
+    (∀ (bs : List Block) (h h' : Host) (o : List Out), h.lateSockets = false → run h bs = some (h', o) → h'.lateSockets = false) :=
+  ⟨fun h h' b o => lateSockets_step startup_closes_when_done_on h b h' o, lateSockets_run startup_closes_when_done_on⟩
+
+/-- full-strength statement of "quiet" over the states runs can reach: in a closed host every block that can occur at all (other than the
+creation of a browser) emits nothing and the host stays closed.  (`C17_quiet_full` above also quantifies over hosts with sockets opened
+behind the shutdown, which no run reaches on the repaired tree — and every run could on the unrepaired one.) -/
+def C17_quiet_reachable_full : Prop :=
+  ∀ (h : Host), WF h → h.lateSockets = false → Closed h → ∀ (b : Block), b.isBrowse = false → ∀ (h' : Host) (o : List Out),
+    step h b = some (h', o) → (∀ x ∈ o, x.isEmission = false) ∧ Closed h' ∧ h'.lateSockets = false
+
+theorem C17_quiet_of_fixes (hfixT : ∀ c, Gen.Shutdown.thread_run_stops false true c = true)
+    (hfixS : Gen.Shutdown.startup_closes_when_done true = true) : C17_quiet_reachable_full := by
+  intro h hw hls hc b hnb h' o hs
+  obtain ⟨e, c⟩ := C17_quiet_core' h hw hc (threadsStop_of_repaired h hc.1 hfixT) hls (Or.inr hfixS) b hnb h' o hs
+  exact ⟨e, c, lateSockets_step hfixS h b h' o hls hs⟩
+
+/-- **C17, quiet (one block) — full strength on the current tree** (D31 and R3-C17-a repaired: both hypotheses discharged from the
+translated leaves).  In a closed host — closed after start-up, during start-up, before it — every block that can occur at all emits
+nothing: no datagram, no goodbye, no callback; the start-up block of an instance closed meanwhile shuts the endpoints it created. -/
+theorem C17_quiet : C17_quiet_reachable_full :=
+  C17_quiet_of_fixes thread_run_stops_when_done startup_closes_when_done_on
+
+theorem C17_quiet_run_closed_of_fixes (hfixT : ∀ c, Gen.Shutdown.thread_run_stops false true c = true)
+    (hfixS : Gen.Shutdown.startup_closes_when_done true = true) (bs : List Block) (hnb : ∀ b ∈ bs, b.isBrowse = false) :
+    ∀ (h : Host), WF h → Closed h → h.lateSockets = false →
+    ∀ h' o, run h bs = some (h', o) → (∀ x ∈ o, x.isEmission = false) ∧ Closed h' ∧ WF h' ∧ h'.lateSockets = false := by
+  induction bs with
+  | nil =>
+    intro h hw hc hls h' o hr
+    simp only [run, Option.some.injEq, Prod.mk.injEq] at hr
+    obtain ⟨rfl, rfl⟩ := hr
+    exact ⟨by simp, hc, hw, hls⟩
+  | cons b rest ih =>
+    intro h hw hc hls h' o hr
+    obtain ⟨s1, o1, o2, h1, h2, rfl⟩ := run_cons h b rest h' o hr
+    obtain ⟨e1, c1, l1⟩ := C17_quiet_of_fixes hfixT hfixS h hw hls hc b (hnb b (by simp)) s1 o1 h1
+    obtain ⟨e2, c2, w2, l2⟩ := ih (fun x hx => hnb x (by simp [hx])) s1 (WF_step h b s1 o1 hw h1) c1 l1 h' o2 h2
+    refine ⟨?_, c2, w2, l2⟩
+    intro x hx
+    rcases List.mem_append.mp hx with hx | hx
+    · exact e1 x hx
+    · exact e2 x hx
+
+/-- full-strength statement of "quiet, forever", over whole runs: start anywhere no socket has been opened behind a shutdown (every
+fresh host), run any blocks — closes called during start-up included — until some close call has returned; whatever blocks follow
+(no browser created after the close) emit nothing, and the host stays closed. -/
+def C17_quiet_run_full : Prop :=
+  ∀ (h0 : Host) (bs1 bs2 : List Block), WF h0 → h0.lateSockets = false → (∀ b ∈ bs2, b.isBrowse = false) →
+    ∀ (h : Host) (o1 : List Out), run h0 bs1 = some (h, o1) → h.closes.any Close.isReturned = true →
+    ∀ (h' : Host) (o2 : List Out), run h bs2 = some (h', o2) → (∀ x ∈ o2, x.isEmission = false) ∧ Closed h'
+
+theorem C17_quiet_run_of_fixes (hfixT : ∀ c, Gen.Shutdown.thread_run_stops false true c = true)
+    (hfixS : Gen.Shutdown.startup_closes_when_done true = true) : C17_quiet_run_full := by
+  intro h0 bs1 bs2 hw0 hl0 hnb h o1 hr1 hret h' o2 hr2
+  have hw : WF h := WF_run bs1 h0 h o1 hw0 hr1
+  have hls : h.lateSockets = false := lateSockets_run hfixS bs1 h0 h o1 hl0 hr1
+  obtain ⟨e, c, _, _⟩ := C17_quiet_run_closed_of_fixes hfixT hfixS bs2 hnb h hw (C17_returned_closed h hw hret) hls h' o2 hr2
+  exact ⟨e, c⟩
+
+/-- **C17, quiet (forever) — full strength on the current tree**: once any close call has returned — whenever it was made — nothing is
+emitted and no callback starts, whatever blocks follow.  No `NoLateStart`, no `QueuesEmpty`: both repairs are read off the tree. -/
+theorem C17_quiet_run : C17_quiet_run_full :=
+  C17_quiet_run_of_fixes thread_run_stops_when_done startup_closes_when_done_on
+
+/-- **datagrams can no longer even arrive** in a closed host of any run: `recv` is rejected, the cleanup timer cannot fire, and a
+start-up still pending can only shut its endpoints down again (no emission, `running` stays off) — full strength on the current tree -/
+theorem C17_no_input_after_close (h : Host) (hc : Closed h) (hls : h.lateSockets = false) (s q : Nat) (d u e : Bool) :
+    step h (.recv s q d u) = none ∧ step h (.cleanupFire e) = none ∧
+    (step h .startUp = none ∨ step h .startUp = some ({ h with startPending := false }, [])) := by
+  obtain ⟨hd, ht, hcl, _⟩ := hc
+  refine ⟨by simp [step, ht, hls], by simp [step, hcl], ?_⟩
+  cases hsp : h.startPending with
+  | false => left; simp [step, hsp, hd]
+  | true => right; simp [step, hsp, hd, startup_closes_when_done_on]
+
 /-- datagrams can no longer even arrive: a closed host rejects `recv`; nor can the cleanup timer fire, nor
-can start-up complete -/
-theorem C17_no_input_after_close (h : Host) (hc : Closed h) (hns : NoLateStart h) (s q : Nat) (d u e : Bool) :
+can start-up complete — the form under `NoLateStart` (true on the unrepaired tree as well) -/
+theorem C17_no_input_after_close_startup_partial (h : Host) (hc : Closed h) (hns : NoLateStart h) (s q : Nat) (d u e : Bool) :
     step h (.recv s q d u) = none ∧ step h (.cleanupFire e) = none ∧ step h .startUp = none := by
   obtain ⟨hd, ht, hcl, _⟩ := hc
   simp [step, ht, hcl, hd, hns.1, hns.2]
@@ -1102,6 +1204,56 @@ theorem C17_quiet_full_refuted_late_start (hu : Gen.Shutdown.startup_closes_when
       simpa using this
     have := (hf h hw (by decide) (.recv 0 0 false true) rfl r.1 r.2 (by rw [hs])).1
     exact absurd (this .callback (by rw [hr]; simp)) (by decide)
+
+/-- the full run-level statement is **false of a tree without the repair**: the witness above is a run from a fresh host in which a close
+has returned and a callback follows.  (On the current tree the hypothesis is false — `startup_closes_when_done_on` — and
+`C17_quiet_run` holds.) -/
+theorem C17_quiet_run_full_refuted_unrepaired (hu : Gen.Shutdown.startup_closes_when_done true = false) : ¬ C17_quiet_run_full := by
+  intro hf
+  obtain ⟨h1, h2⟩ := C17_sync_close_during_startup_unrepaired hu
+  have hw0 : WF lateStartHost := C17_wf_invariant.1 lateStartHost rfl rfl
+  have happ : lateStartBlocks = lateStartBlocks.take 6 ++ [.startUp, .recv 0 0 false true] := by decide
+  rw [happ, run_append] at h2
+  cases hr1 : run lateStartHost (lateStartBlocks.take 6) with
+  | none => rw [hr1] at h1; simp at h1
+  | some r1 =>
+    rw [hr1] at h1 h2
+    simp only [Option.map_some, Option.some.injEq, Prod.mk.injEq, decide_eq_true_eq] at h1
+    obtain ⟨hcl, ho1⟩ := h1
+    simp only [Option.bind] at h2
+    cases hr2 : run r1.1 [.startUp, .recv 0 0 false true] with
+    | none => rw [hr2] at h2; simp [Option.bind] at h2
+    | some r2 =>
+      rw [hr2] at h2
+      simp only [Option.bind, Option.map_some, Option.some.injEq, Prod.mk.injEq, ho1, List.nil_append] at h2
+      have hq := (hf lateStartHost (lateStartBlocks.take 6) [.startUp, .recv 0 0 false true] hw0 rfl (by decide) r1.1 r1.2
+        (by rw [hr1]) hcl.2.2.2 r2.1 r2.2 (by rw [hr2])).1
+      exact absurd (hq .callback (by rw [h2.1]; simp)) (by decide)
+
+/-- **the same run on the repaired tree** (non-vacuity of `C17_quiet_run`: its hypotheses are met by a close *during start-up*): the
+sync close runs through and returns while the endpoints are still being created; start-up then completes, finds the instance done and
+shuts its endpoints down — `running` stays off, no socket is open, nothing is emitted —, and the response that follows cannot even
+arrive (`run … = none`: `recv` is not enabled). -/
+theorem C17_sync_close_during_startup_repaired (hfix : Gen.Shutdown.startup_closes_when_done true = true) :
+    (run lateStartHost (lateStartBlocks.take 7)).map (fun r => (decide (Closed r.1), r.1.lateSockets, r.1.running, r.1.startPending, r.2))
+      = some (true, false, false, false, []) ∧
+    run lateStartHost lateStartBlocks = none := by
+  constructor <;>
+  simp [run, step, lateStartBlocks, lateStartHost, hfix, syncOrderOk_eq, syncUnregisters_eq, closeBody, Host.setStage, selfJoin, zcClose,
+      close_skipped_iff, close_removes_service_listeners_holds, close_sets_done_holds, syncCancelOuts, engine_close_off_loop,
+      engine_close_skipped_iff, engine_close_awaits_async_close_holds, transportsAfterShutdown_eq, runningAfterShutdown_eq,
+      cleanupAfterClose_eq, shutdown_threads_skipped_iff, notify, enqueue, gated, send_blocked_of_done, bind, Option.bind, pure, Closed,
+      Close.isReturned]
+
+example : (run lateStartHost (lateStartBlocks.take 7)).map (fun r => (decide (Closed r.1), r.1.lateSockets, r.1.running, r.1.startPending, r.2))
+      = some (true, false, false, false, []) ∧ run lateStartHost lateStartBlocks = none :=
+  C17_sync_close_during_startup_repaired startup_closes_when_done_on
+
+/-- … and `C17_quiet_run` applied to it: whatever follows the six blocks of that close emits nothing -/
+example (bs : List Block) (hnb : ∀ b ∈ bs, b.isBrowse = false) (h h' : Host) (o1 o2 : List Out)
+    (hr1 : run lateStartHost (lateStartBlocks.take 6) = some (h, o1)) (hret : h.closes.any Close.isReturned = true)
+    (hr2 : run h bs = some (h', o2)) : ∀ x ∈ o2, x.isEmission = false :=
+  (C17_quiet_run lateStartHost (lateStartBlocks.take 6) bs (C17_wf_invariant.1 lateStartHost rfl rfl) rfl hnb h o1 hr1 hret h' o2 hr2).1
 
 /-! ### non-vacuity -/
 
